@@ -35,7 +35,7 @@ def execute(c):
     def mk(P, pos, ty, rad, base):
         n = len(P)
         off = off1 if base == 1000 else tuple(a + b for a, b in zip(off1, far))
-        return Tree(n, id=np.arange(n, dtype=np.int32), pid=np.array(P, dtype=np.int32), type=np.array(ty, dtype=np.int32),
+        return Tree(n, source=lib.SRC, id=np.arange(n, dtype=np.int32), pid=np.array(P, dtype=np.int32), type=np.array(ty, dtype=np.int32),
                     x=np.array([p[0] * unit + off[0] for p in pos], dtype=np.float32),
                     y=np.array([p[1] * unit + off[1] for p in pos], dtype=np.float32),
                     z=np.array([p[2] * unit + off[2] for p in pos], dtype=np.float32),
